@@ -17,6 +17,7 @@ func init() {
 }
 
 func runC11(c *Ctx) {
+	defer checkConfigGetters(c, "C11.R6", "GetRedirectSecureChecker")
 	c11R1(c)
 	c11R2(c)
 	c11R3(c)
